@@ -315,6 +315,11 @@ func (c *Cluster) run() {
 					logs.Info.Println("cluster: rehashing at a request of",
 						health.Leader, health.Nodes, health.Signature, c.ring.Signature())
 					c.rehash(health.Nodes)
+					// Keep the list of active nodes in step with the ring: should this node become
+					// the leader, it reports both to the followers and they must agree.
+					c.fo.activeNodesLock.Lock()
+					c.fo.activeNodes = health.Nodes
+					c.fo.activeNodesLock.Unlock()
 					c.invalidateProxySubs("")
 					c.gcProxySessions(health.Nodes)
 					rehashSkipped = false
